@@ -28,13 +28,15 @@ META = dict(
          "(PPModel/Mod/Diagram.lean: id-keyed ConverterState, name propagation through unnamed Forward/Located, "
          "placeholders, mark_for_extraction, extract_into_diagram, de-duplication, ordering; mutable partial tree "
          "as a heap). Full strength on the model: bookmarks_distinct (all grammars, all options, all fuel), "
-         "diverges_unnamed_cycle (for EVERY fuel the minimal unnamed recursive grammar does not terminate - the "
-         "termination clause of C20 is false of the current code, registered finding diagram_unnamed_cycle), "
-         "empty_placeholder_witness / dangling_link_witness / unnamed_forward_root_witness (the other clauses "
-         "fail on concrete grammars, registered findings). Partial: terminates_partial (termination with an "
-         "explicit fuel bound only for grammars in which every cycle passes through a custom-named, "
-         "extraction-worthy node - stated with a rank function; the full statement also covers unnamed cycles, "
-         "where it is false). links_resolve, no_empty_placeholder, root_first, tokens_covered are NOT proved in "
+         "output_sorted, unnamed_never_extracted, diverges_unnamed_cycle (for EVERY fuel the minimal unnamed "
+         "recursive grammar does not terminate - the termination clause of C20 is false of the current code, "
+         "registered finding diagram_unnamed_cycle), empty_placeholder_witness / dangling_link_witness / "
+         "unnamed_forward_root_witness / root_not_first_witness (the other clauses "
+         "fail on concrete grammars, registered findings). Partial: terminates_partial (termination with the "
+         "explicit recursion-depth bound |g|(R+3)+R+2 only for grammars in which every cycle passes through a "
+         "custom-named, extraction-worthy node - stated with a rank function, read by ranked_cycle_has_cut; the "
+         "full statement also covers unnamed cycles, where it is false - diverges_of_unnamed_loop proves "
+         "non-termination for EVERY grammar whose root lies on a cycle of unnamed elements). links_resolve, no_empty_placeholder, root_first, tokens_covered are NOT proved in "
          "general: they are decided by the oracle on the real code over generated grammars and by the "
          "model-vs-code correspondence.",
     note="Trusted: Lean kernel; axioms propext/Classical.choice/Quot.sound; the transcription of "
@@ -53,6 +55,8 @@ THEOREMS = [
     "PP.Diagram.unnamed_never_extracted",
     "PP.Diagram.diverges_of_unnamed_loop",
     "PP.Diagram.diverges_unnamed_cycle",
+    "PP.Diagram.ranked_cycle_has_cut",
+    "PP.Diagram.terminates_partial",
     "PP.Diagram.empty_placeholder_witness",
     "PP.Diagram.dangling_link_witness",
     "PP.Diagram.unnamed_forward_root_witness",
@@ -224,6 +228,46 @@ def table_of(pp, D, root):
 
 def _opt(v):
     return Sym("None") if v is None else v
+
+
+def rank_of(nodes):
+    """a rank function for `Ranked` (longest path that never enters a cut element), or None if there is an
+    uncut cycle.  cut = truthy custom name and worth extracting (some child has children)."""
+    n = len(nodes)
+    worth = [any(nodes[c]["kids"] for c in nd["kids"]) for nd in nodes]
+    cut = [bool(nd["custom"]) and worth[u] for u, nd in enumerate(nodes)]
+    rank, state = [0] * n, [0] * n
+
+    def go(u):
+        if state[u] == 2:
+            return True
+        if state[u] == 1:
+            return False
+        state[u] = 1
+        r = 0
+        for c in nodes[u]["kids"]:
+            if cut[c]:
+                continue
+            if not go(c):
+                return False
+            r = max(r, rank[c] + 1)
+        rank[u] = r
+        state[u] = 2
+        return True
+
+    sys.setrecursionlimit(max(sys.getrecursionlimit(), 5000))
+    for u in range(n):
+        if not go(u):
+            return None
+    return rank
+
+
+def ranked_line(nodes, rank):
+    items = [Sym("diagram-ranked"), list(rank)]
+    for n in nodes:
+        items.append([[Sym(c) for c in n["cls"]], n["tname"], n["kids"], _opt(n["custom"]), _opt(n["rname"]),
+                      n["modal"], n["shown"], n["dname"], n["term"]])
+    return sx(*items)
 
 
 def model_line(nodes, opts, fuel=400):
@@ -820,7 +864,7 @@ def run(ctx):
     n_safe = ctx.budget(8000, 150000)
     n_any = ctx.budget(4000, 60000)
     for i in range(n_safe):
-        cases.append((gen_prog(rng, True, rng.randint(2, ctx.budget(9, 14))), gen_opts(rng), True))
+        cases.append((gen_prog(rng, True, rng.randint(2, ctx.budget(9, 11))), gen_opts(rng), True))
     for i in range(n_any):
         cases.append((gen_prog(rng, False, rng.randint(2, 9)), gen_opts(rng), False))
     _judge(ctx, cases, "gen")
@@ -844,9 +888,17 @@ def _one(args):
     except Exception as ex:  # build failure of a generated program is a generator matter, not a finding
         return {"skip": f"{type(ex).__name__}: {ex}"}
     reg = regions(out["nodes"], opts, out["has_stop"])
-    line = None if out["has_stop"] else model_line(out["nodes"], opts)
+    rank = rank_of(out["nodes"])
+    # the classifier of the unnamed-cycle region and the hypothesis of terminates_partial must agree
+    # (a named stop_on repetition is a cut for `Ranked` but is never registered by the real converter)
+    bound = None
+    if rank is not None:
+        bound = len(out["nodes"]) * (max(rank) + 3) + max(rank) + 2
+    line = None if out["has_stop"] else model_line(out["nodes"], opts, fuel=bound if bound is not None else 400)
+    rline = None if (out["has_stop"] or rank is None) else ranked_line(out["nodes"], rank)
     return {"canon": out["canon"], "probs": out["probs"], "regions": sorted(reg), "line": line,
-            "n_nodes": len(out["nodes"]), "outcome": out["res"][0]}
+            "n_nodes": len(out["nodes"]), "outcome": out["res"][0], "rline": rline, "bound": bound,
+            "ranked": rank is not None}
 
 
 def _judge(ctx, cases, stream, correspond=True):
@@ -887,6 +939,25 @@ def _judge(ctx, cases, stream, correspond=True):
     n_safe_total = sum(1 for c in cases if c[2])
     if n_safe_total > 50 and rejected > 0.5 * n_safe_total:
         raise common.HarnessError(f"safe generator: {rejected}/{n_safe_total} cases fell into known-finding regions")
+    # hypothesis of terminates_partial: the rank computed here is accepted by the Lean `rankedB`, the bound is
+    # the Lean `fuelBound` (the model lines above were run with exactly that fuel), and the real code terminated
+    rl = [(r["rline"], r["bound"], r["outcome"], c) for c, r in zip(cases, results)
+          if "skip" not in r and r.get("rline") and correspond]
+    if rl:
+        outs = ctx.driver.run_sharded([x[0] for x in rl])
+        bad = [(x[3][0], o) for x, o in zip(rl, outs) if o != f"(T {x[1]})"]
+        hung = [(x[3][0], x[3][1]) for x in rl if x[2] != "ok"]
+        ctx.obligation(f"terminates_partial hypothesis (Ranked) checked by the model on {len(rl)} generated "
+                       f"grammars without uncut cycle; all of them terminate on the real code", not bad and not hung,
+                       json.dumps((bad or hung)[:2])[:400])
+        for c, o in hung[:3]:
+            ctx.fail_input("ranked grammar does not terminate", {"case": c, "opts": o},
+                           "terminates (terminates_partial: every cycle passes through a custom-named element)",
+                           "RecursionError / exception", theorem="PP.Diagram.terminates_partial")
+        for (c, r) in zip(cases, results):
+            if "skip" not in r and ("diagram_unnamed_cycle" in r["regions"]) == r.get("ranked", False) \
+                    and not ("stop_on" in r["regions"]):
+                raise common.HarnessError("region classifier and rank computation disagree: " + json.dumps(c[0]))
     if ccases:
         diffs = ctx.correspond(f"diagram-{stream}", ccases, lines, impl,
                                nontrivial=lambda c, o: o.count("(") > 6,
